@@ -441,9 +441,30 @@ def clause_c(repo, chk):
         cfg = CFG(fn.node)
 
         # plain local aliases of the buffer (hess_p = self.<attr>) stand for the buffer; the aliasing statement is no use
-        alias_stmts = [x for x in walk_local(fn.node) if isinstance(x, ast.Assign) and len(x.targets) == 1 and isinstance(x.targets[0], ast.Name)
-                       and isinstance(x.value, ast.Attribute) and x.value.attr == attr and isinstance(x.value.value, ast.Name) and x.value.value.id == "self"]
+        def _is_buffer_read(v):
+            if isinstance(v, ast.Attribute) and v.attr == attr and isinstance(v.value, ast.Name) and v.value.id == "self":
+                return True
+            return (isinstance(v, ast.Call) and isinstance(v.func, ast.Name) and v.func.id == "getattr" and len(v.args) >= 2
+                    and isinstance(v.args[0], ast.Name) and v.args[0].id == "self" and isinstance(v.args[1], ast.Constant) and v.args[1].value == attr)
+
+        alias_stmts = [x for x in walk_local(fn.node) if isinstance(x, ast.Assign) and len(x.targets) == 1 and isinstance(x.targets[0], ast.Name) and _is_buffer_read(x.value)]
         aliases = {x.targets[0].id for x in alias_stmts}
+        # hess_p = self.<attr> = [...]: the local and the attribute are bound to the same new buffer
+        for x in walk_local(fn.node):
+            if isinstance(x, ast.Assign) and len(x.targets) > 1 and any(_is_buffer_read(t_) for t_ in x.targets):
+                aliases |= {t_.id for t_ in x.targets if isinstance(t_, ast.Name)}
+
+        def _guard(node_, sc_):
+            """a test that only asks whether the buffer exists yet"""
+            if node_.kind != "test":
+                return False
+            t_ = norm_text(sc_).replace(" ", "")
+            if t_.startswith("nothasattr(self,") or t_.startswith("hasattr(self,"):
+                return True
+            for al in aliases:
+                if t_ in ("%sisNone" % al, "%sisnotNone" % al, "not%s" % al, al):
+                    return True
+            return False
 
         def mentions(node_ast, name_attr=attr, name_par=par):
             has_attr = any((isinstance(x, ast.Attribute) and x.attr == name_attr) or (isinstance(x, ast.Name) and x.id in aliases) for x in ast.walk(node_ast))
@@ -469,7 +490,7 @@ def clause_c(repo, chk):
             if sc is None:
                 return [state]
             has_attr, has_par = mentions(sc)
-            is_guard = node.kind == "test" and norm_text(sc).startswith("not hasattr(self,")
+            is_guard = _guard(node, sc)
             if has_attr and has_par and not is_guard:
                 return ["fresh"]
             return [state]
@@ -482,7 +503,7 @@ def clause_c(repo, chk):
             if sc is None:
                 continue
             has_attr, has_par = mentions(sc)
-            is_guard = node.kind == "test" and norm_text(sc).startswith("not hasattr(self,")
+            is_guard = _guard(node, sc)
             if any(sc is a_ for a_ in alias_stmts):
                 continue
             if has_attr and not has_par and not is_guard:
